@@ -436,6 +436,10 @@ var scriptOps = []struct{ name, code string }{
 	{"nested", "if spec.routing == nil then spec.routing = {} end\nspec.routing.canaryService = obj.canaryService\nspec.routing.stableService = obj.stableService\n"},
 	{"hdr", "spec.headerModifier = obj.requestHeaderModifier\n"},
 	{"drop", "spec.legacy = nil\n"},
+	// a script-level global that is never initialised: on the fresh interpreter every call is promised, `seenBefore` is nil
+	// at the start of each call and the block always writes true; it writes false only if interpreter state
+	// survives from one call to the next
+	{"gacc", "spec.freshInterpreter = (seenBefore == nil)\nseenBefore = true\n"},
 }
 
 func genScript(rng *rand.Rand) (string, string) {
@@ -451,7 +455,7 @@ func genScript(rng *rand.Rand) (string, string) {
 	if len(names) == 0 {
 		names = []string{"weight"}
 	}
-	order := map[string]int{"weight": 0, "matches": 1, "meta": 2, "scale": 3, "append": 4, "nested": 5, "hdr": 6, "drop": 7}
+	order := map[string]int{"weight": 0, "matches": 1, "meta": 2, "scale": 3, "append": 4, "nested": 5, "hdr": 6, "drop": 7, "gacc": 8}
 	sort.Slice(names, func(i, j int) bool { return order[names[i]] < order[names[j]] })
 	for _, n := range names {
 		for _, op := range scriptOps {
